@@ -31,7 +31,8 @@ STUBS = ["numpy.savetxt / loadtxt / save / load: text cells carrying (term, requ
          "rosbags writer/reader/typestore: recording fakes (message objects passed through)"]
 ASSUMPTIONS = ["'%.18e' / repr + strtod round-trip binary64 exactly (17-significant-digit theorem, glibc correct rounding): trusted",
                ".npy stores binary64 exactly: trusted", "pandas moves object cells unchanged"]
-OUTSIDE = ["decimal print/parse itself", "rosbags (de)serialisation", "binary64 double rounding of the bag stamp split (<= 2 ulp beyond 1 ns): real mode"]
+OUTSIDE = ["decimal print/parse itself", "rosbags (de)serialisation", "binary64 double rounding of the bag stamp split (<= 2 ulp beyond 1 ns): real mode",
+           "branches inside pandas / NumPy on the dtype or the values of a DataFrame index (pandas runs on object cells; seed C06d)"]
 MODS = ("evo.tools.file_interface", "evo.tools.pandas_bridge")
 
 
